@@ -116,6 +116,9 @@ func (pk *PublicKey[P, B, S]) UnmarshalCBOR(data []byte) error {
 	if err != nil {
 		return errs.Wrap(err).WithMessage("failed to unmarshal ECDSA public key")
 	}
+	if dto == nil {
+		return errs.Wrap(serde.ErrNull).WithMessage("failed to unmarshal ECDSA public key")
+	}
 
 	pk2, err := NewPublicKey(dto.PK)
 	if err != nil {
